@@ -53,6 +53,22 @@ pub fn resp(a: &[String]) {
             for v in l.values().rev() { println!("obs=rvalue={}", hex(v.as_bytes())); }
             for (v, _g) in l.grouped_values() { println!("obs=gvalue={}", hex(v.as_bytes())); }
             for (t, v) in l.clone().into_raw_values() { println!("obs=raw={}:{}", tagname(&t), hex(v.as_bytes())); }
+            // every pair of operations on both value iterators, then what remains
+            fn one<S: AsRef<str>, It: DoubleEndedIterator<Item = S> + ExactSizeIterator>(it: &mut It, op: &str) -> String {
+                let r = match op { "n" => it.next(), "b" => it.next_back(), "N0" => it.nth(0), "N1" => it.nth(1), "B0" => it.nth_back(0), _ => it.nth_back(1) };
+                r.map(|v| hex(v.as_ref().as_bytes())).unwrap_or_else(|| "end".into())
+            }
+            let ops = ["n", "b", "N0", "N1", "B0", "B1"];
+            for a in ops { for b in ops {
+                let mut it = l.values();
+                let (x, y) = (one(&mut it, a), one(&mut it, b));
+                println!("obs=script {a},{b}:{x},{y} len={} last={}", it.len(), it.last().map(|v| hex(v.as_bytes())).unwrap_or_else(|| "end".into()));
+            } }
+            for a in ops { for b in ops {
+                let mut it = l.clone().into_iter();
+                let (x, y) = (one(&mut it, a), one(&mut it, b));
+                println!("obs=oscript {a},{b}:{x},{y} len={} last={}", it.len(), it.last().map(|v| hex(v.as_bytes())).unwrap_or_else(|| "end".into()));
+            } }
             for v in l { println!("obs=ovalue={}", hex(v.as_bytes())); } }),
         "List1" => run!(c::List::new(Tag::Artist).group_by([Tag::Album]), frame, |l| {
             for (v, g) in l.grouped_values() { println!("obs=gvalue={} group={}", hex(v.as_bytes()), hex(g[0].as_bytes())); }
